@@ -257,19 +257,11 @@ func (c *c07ctx) ruleR3() {
 	}
 	ok := true
 	msg := ""
-	Instrs(fn, func(in ssa.Instruction) {
-		ret, isRet := in.(*ssa.Return)
-		if !isRet || len(ret.Results) != 2 {
-			return
-		}
-		inSent := sent.Dominates(ret.Block())
-		inDflt := dflt.Dominates(ret.Block())
-		errv := ret.Results[1]
+	checkArm := func(ret *ssa.Return, inSent, inDflt bool, nv, errv ssa.Value) {
 		nilErr := false
 		if cst, isC := errv.(*ssa.Const); isC && cst.Value == nil {
 			nilErr = true
 		}
-		nv := ret.Results[0]
 		switch {
 		case inSent:
 			isLen := false
@@ -291,6 +283,43 @@ func (c *c07ctx) ruleR3() {
 		default:
 			ok = false
 			msg = "return not attributable to an arm at " + p.InstrPos(ret)
+		}
+	}
+	inArm := func(arm, b *ssa.BasicBlock) bool { return arm == b || arm.Dominates(b) }
+	Instrs(fn, func(in ssa.Instruction) {
+		ret, isRet := in.(*ssa.Return)
+		if !isRet || len(ret.Results) != 2 {
+			return
+		}
+		nv, errv := returnedValue(ret, 0), returnedValue(ret, 1)
+		if inArm(sent, ret.Block()) || inArm(dflt, ret.Block()) {
+			checkArm(ret, inArm(sent, ret.Block()), inArm(dflt, ret.Block()), nv, errv)
+			return
+		}
+		// one exit after the arms have joined: the results are merged per arm (named results set
+		// in the arms): each way into the join is attributed to its arm
+		var join *ssa.BasicBlock
+		for _, v := range []ssa.Value{nv, errv} {
+			if ph, isPhi := v.(*ssa.Phi); isPhi {
+				if join != nil && join != ph.Block() {
+					join = nil
+					break
+				}
+				join = ph.Block()
+			}
+		}
+		if join == nil || !(join == ret.Block() || join.Dominates(ret.Block())) {
+			checkArm(ret, false, false, nv, errv)
+			return
+		}
+		at := func(v ssa.Value, i int) ssa.Value {
+			if ph, isPhi := v.(*ssa.Phi); isPhi && ph.Block() == join {
+				return ph.Edges[i]
+			}
+			return v
+		}
+		for i, pred := range join.Preds {
+			checkArm(ret, inArm(sent, pred), inArm(dflt, pred), at(nv, i), at(errv, i))
 		}
 	})
 	r.Check(ok, "C07.R3", key, p.InstrPos(sel), "single non-blocking send of the whole parameter; (len(p),nil) when accepted, (0,err) when full", msg)
